@@ -22,7 +22,13 @@ else
   git -C /repo worktree add -q --detach "$W/repo" HEAD || exit 2
   trap 'git -C /repo worktree remove --force "$W/repo" 2>/dev/null; rm -rf "$W"' EXIT
   git -C "$W/repo" apply "$d/patch.diff" || { echo "patch does not apply"; exit 2; }
-  mkdir -p "$W/verif"; cp -a /verif/mc /verif/run.sh /verif/known_findings.txt "$W/verif/"
+  mkdir -p "$W/verif"
+  if [ -n "${VERIF_REV:-}" ]; then
+    # the machinery as committed at that revision (lets the working tree be edited while a blind run is in progress)
+    git -C /verif archive "$VERIF_REV" mc run.sh known_findings.txt | tar -x -C "$W/verif"
+  else
+    cp -a /verif/mc /verif/run.sh /verif/known_findings.txt "$W/verif/"
+  fi
   R="$W/repo"; V="$W/verif"; export VERIF_REPO="$R"
 fi
 suite=$(cd "$R" && go test -vet=off -count=1 ./... 2>&1 | tail -3)
